@@ -36,6 +36,14 @@ func genKey(r *sim.Rng) []byte {
 	return lib.JoinLenPrefix([]byte{2}, []byte{byte(r.Intn(3))}, []byte{byte(r.Intn(2)), byte(r.Pick(0, 1, 255))})
 }
 func genPrefix(r *sim.Rng) []byte {
+	if r.Chance(12) {
+		// a prefix ending in an empty segment: it extends a stored key exactly into the version suffix of the
+		// latest-state partition (inverted version 0x00..) - the counterexample of VStoreProofs, fixed in 4975908
+		if r.Bool() {
+			return append(genKey(r), 0)
+		}
+		return append(lib.JoinLenPrefix([]byte{byte(1 + r.Intn(2))}), 0)
+	}
 	switch r.Intn(5) {
 	case 0:
 		return lib.JoinLenPrefix([]byte{1})
